@@ -53,6 +53,17 @@ def docs(label="b"):
                     % (RDF_NS, EX, L, O), one, False)
     d["xml-two"] = ("xml", '<rdf:RDF xmlns:rdf="%s" xmlns:e="%s"><rdf:Description rdf:nodeID="%s"><e:p rdf:resource="%s"/></rdf:Description>'
                     '<rdf:Description rdf:nodeID="%s"><e:q rdf:resource="%s"/></rdf:Description></rdf:RDF>' % (RDF_NS, EX, L, O, L, O), two, False)
+    fwd = [(i(EX + "a"), i(P), b, None), (b, i(Q), i(O), None)]
+    # the label is first met as an OBJECT (forward reference) and described later
+    d["xml-forward"] = ("xml", '<rdf:RDF xmlns:rdf="%s" xmlns:e="%s"><rdf:Description rdf:about="%sa"><e:p rdf:nodeID="%s"/></rdf:Description>'
+                        '<rdf:Description rdf:nodeID="%s"><e:q rdf:resource="%s"/></rdf:Description></rdf:RDF>' % (RDF_NS, EX, EX, L, L, O), fwd, False)
+    d["xml-object-only"] = ("xml", '<rdf:RDF xmlns:rdf="%s" xmlns:e="%s"><rdf:Description rdf:about="%sa"><e:p rdf:nodeID="%s"/><e:q rdf:nodeID="%s"/></rdf:Description></rdf:RDF>'
+                            % (RDF_NS, EX, EX, L, L), [(i(EX + "a"), i(P), b, None), (i(EX + "a"), i(Q), b, None)], False)
+    d["ttl-forward"] = ("turtle", "@prefix : <%s> .\n:a :p _:%s .\n_:%s :q :o .\n" % (EX, L, L), fwd, False)
+    d["nt-forward"] = ("nt", "<%sa> <%s> _:%s .\n_:%s <%s> <%s> .\n" % (EX, P, L, L, Q, O), fwd, False)
+    d["jsonld-forward"] = ("json-ld", json.dumps([{"@id": EX + "a", P: {"@id": "_:" + L}}, {"@id": "_:" + L, Q: {"@id": O}}]), fwd, False)
+    d["trix-forward"] = ("trix", '<TriX xmlns="%s"><graph><triple><uri>%sa</uri><uri>%s</uri><id>%s</id></triple><triple><id>%s</id><uri>%s</uri><uri>%s</uri></triple></graph></TriX>'
+                         % (TRIX_NS, EX, P, L, L, Q, O), fwd, True)
     trip = "<triple><id>%s</id><uri>%s</uri><uri>%s</uri></triple>"
     d["trix-one"] = ("trix", '<TriX xmlns="%s"><graph>%s</graph></TriX>' % (TRIX_NS, trip % (L, P, O)), one, True)
     d["trix-across"] = ("trix", '<TriX xmlns="%s"><graph><uri>%s</uri>%s</graph><graph><uri>%s</uri>%s</graph></TriX>'
